@@ -164,8 +164,7 @@ fn states_case<T: Sc>(rng: &mut Rng, case: u64, out: &mut CaseOut) {
     let g = gen_problem(rng, &GenOpts { nmax: if T::IS_F64 { 120 } else { 40 }, smax: 7, ..Default::default() });
     let mut spec = g.spec;
     spec.alpha0 = wide_alpha(rng, &g.alpha_true);
-    let ctl = SpyCtl::new();
-    let mut prob = match build_problem::<T>(&spec, &ctl) {
+    let mut prob = match build_problem_auto::<T>(&spec) {
         Ok(p) => p,
         Err(e) => {
             violation(out, stream, case, format!("valid problem rejected by the builder: {e}"), spec.to_json());
@@ -173,7 +172,7 @@ fn states_case<T: Sc>(rng: &mut Rng, case: u64, out: &mut CaseOut) {
         }
     };
     out.seen("flavour", format!("{}{}", if spec.mrhs { "mrhs" } else { "single" }, if spec.par { "+parallel" } else { "" }));
-    out.seen("model_kind", prob.model().inner.kind());
+    out.seen("model_kind", prob.model_kind());
     out.seen("weights", g.wclass.name());
     out.seen("scalar", T::NAME);
     let thr = default_thr::<T>(&spec);
@@ -211,8 +210,7 @@ fn fit_case<T: Sc>(rng: &mut Rng, case: u64, out: &mut CaseOut) {
     let g = gen_problem(rng, &GenOpts { nmax: 50, smax: 4, ..Default::default() });
     let mut spec = g.spec;
     spec.alpha0 = perturb_alpha(rng, &g.alpha_true, 0.25);
-    let ctl = SpyCtl::new();
-    let prob = match build_problem::<T>(&spec, &ctl) {
+    let prob = match build_problem_auto::<T>(&spec) {
         Ok(p) => p,
         Err(e) => {
             violation(out, stream, case, format!("valid problem rejected by the builder: {e}"), spec.to_json());
@@ -286,8 +284,7 @@ fn designed_case<T: Sc>(rng: &mut Rng, case: u64, out: &mut CaseOut) {
     let y = Mat::from_fn(n, scols, |_, _| rng.normal() * ymag);
     let w = if rng.chance(0.3) { Some(vec![*rng.pick(&[1.0, -1.0, 2.0, 0.5]); n]) } else { None };
     let spec = ProblemSpec { model: ModelKind::Designed(d), alpha0: alpha0.clone(), y, w, eps: eps_arg, mrhs: scols > 1 || rng.chance(0.3), par: rng.chance(0.3) };
-    let ctl = SpyCtl::new();
-    let mut prob = match build_problem::<T>(&spec, &ctl) {
+    let mut prob = match build_problem_auto::<T>(&spec) {
         Ok(p) => p,
         Err(e) => {
             violation(out, stream, case, format!("valid problem rejected by the builder: {e}"), spec.to_json());
@@ -331,7 +328,7 @@ fn boundary_case<T: Sc>(rng: &mut Rng, case: u64, out: &mut CaseOut) {
     let y = Mat::from_fn(n, 1, |_, _| rng.range(0.5, 2.0) * rng.sign());
     for (eps_arg, expect_zero) in [(sval, true), (-sval, true), (below, false), (-below, false)] {
         let spec = ProblemSpec { model: ModelKind::OneCol { n, row }, alpha0: vec![sval], y: y.clone(), w: None, eps: Some(eps_arg), mrhs: false, par: false };
-        let prob = match build_problem::<T>(&spec, &SpyCtl::new()) {
+        let prob = match build_problem_auto::<T>(&spec) {
             Ok(p) => p,
             Err(e) => {
                 violation(out, stream, case, format!("valid problem rejected: {e}"), spec.to_json());
@@ -372,7 +369,7 @@ fn duplicate_case<T: Sc>(rng: &mut Rng, case: u64, out: &mut CaseOut) {
     }
     let thr = crate::sc::rt::<T>(if T::IS_F64 { 1e-8 } else { 1e-3 });
     let spec = ProblemSpec { model: if rng.chance(0.5) { ModelKind::Built(spec_m) } else { ModelKind::Hand(spec_m) }, alpha0: alpha.clone(), y, w: gen_weights(rng, WClass::Positive, n, n), eps: Some(thr), mrhs: false, par: rng.chance(0.3) };
-    let prob = match build_problem::<T>(&spec, &SpyCtl::new()) {
+    let prob = match build_problem_auto::<T>(&spec) {
         Ok(p) => p,
         Err(e) => {
             violation(out, stream, case, format!("valid problem rejected: {e}"), spec.to_json());
@@ -416,7 +413,7 @@ fn linearity_case<T: Sc>(rng: &mut Rng, case: u64, out: &mut CaseOut) {
     spec.y = y;
     spec.mrhs = true;
     spec.alpha0 = wide_alpha(rng, &g.alpha_true);
-    let prob = match build_problem::<T>(&spec, &SpyCtl::new()) {
+    let prob = match build_problem_auto::<T>(&spec) {
         Ok(p) => p,
         Err(e) => {
             violation(out, stream, case, format!("valid problem rejected: {e}"), spec.to_json());
